@@ -301,7 +301,7 @@ theorem quiet_flushDestroy (m) : Quiet (fun s => flushDestroy s m) := by
   split
   · split
     · rename_i q _
-      exact ⟨_, Quiet.comp (quiet_updMod m (fun md => { md with pipe := some [] }) (fun md => rfl))
+      exact ⟨_, Quiet.comp (quiet_updMod m (fun md => { md with pipe := some [], pipeSkip := 0 }) (fun md => rfl))
                 (Quiet.foldl destroyMsg quiet_destroyMsg q), rfl⟩
     · exact ⟨_, Quiet.id, rfl⟩
   · exact ⟨_, Quiet.id, rfl⟩
